@@ -2,6 +2,7 @@
 // The real macros are instantiated (c17_table.c) for orders 2..13 x {string,uint32,uint64}.
 // Oracles: std::map model after every operation (return codes, values, prev_value, every other key),
 // independent reachability reference for "table full", the routing sweep of router.c as an operation.
+#include "../fw/deadline.hpp"
 #include "../fw/json.hpp"
 #include "../fw/scenario.hpp"
 #include "c17_ops.h"
@@ -307,6 +308,7 @@ int main(int argc, char **argv)
 		                          rc::gen::weightedElement<int>({{10, 0}, {3, 1}, {4, 2}, {1, 3}, {1, 4}}), rc::gen::resize(100, rc::gen::inRange(0, 400)), rc::gen::resize(100, rc::gen::inRange(0, 64)), rc::gen::resize(100, rc::gen::inRange(0, 4)));
 		Case last; std::string lastwhy; bool have = false;
 		bool ok = rc::check("C17", [&]() {
+			if (budget::over()) { budget::skipped()++; return; }
 			Case c;
 			c.type = *rc::gen::resize(100, rc::gen::inRange(0, 3));
 			c.order = *rc::gen::resize(100, rc::gen::weightedElement<int>({{2, 2}, {2, 3}, {2, 4}, {1, 5}, {2, 6}, {4, 7}, {3, 8}, {1, 9}, {1, 10}, {1, 11}, {1, 12}, {1, 13}}));
